@@ -109,7 +109,11 @@ pub fn check_point_day(coords: Coordinates, loc: &TzLocation<Tz>, oh: &[(i64, Op
         }
     }
     // zone plausible for the longitude (detects swapped lat/lon, dropped conversion)
-    let off_h = tz.offset_from_utc_datetime(&noon).fix().local_minus_utc() as f64 / 3600.0;
+    // The offset is read at a fixed modern instant, not on the swept date: tzdata gives places that
+    // had no civil time yet the offset 0 (`-00`: America/Rankin_Inlet before 1957, Antarctic
+    // stations), which says nothing about where the zone lies (false alarm of the first thorough run).
+    let reference = crate::util::dt(2020, 1, 15, 12, 0);
+    let off_h = tz.offset_from_utc_datetime(&reference).fix().local_minus_utc() as f64 / 3600.0;
     let mut diff = off_h - lon / 15.0;
     while diff > 12.0 {
         diff -= 24.0;
